@@ -1,15 +1,43 @@
-// translation unit handed to clang for the AST of the relational operators of
-// basic_fitness_t<double> and of model_measurements (explicit instantiations so that the
-// bodies are fully resolved: callee declarations, overloads, iterator types)
+// translation unit handed to clang for the AST of the whole public surface of
+// basic_fitness_t<double> (fitness.tcc), of the scalar helpers of utility.h it calls and of
+// model_measurements::operator>= (explicit instantiations so that the bodies are fully
+// resolved: callee declarations, overloads, iterator types)
 #include "kernel/fitness.h"
 #include "kernel/model_measurements.h"
 
 namespace vita
 {
+template class basic_fitness_t<double>;     // operator+= -= *=, size, operator[], begin/end
+
 template bool operator==(const basic_fitness_t<double> &, const basic_fitness_t<double> &);
 template bool operator!=(const basic_fitness_t<double> &, const basic_fitness_t<double> &);
 template bool operator<(const basic_fitness_t<double> &, const basic_fitness_t<double> &);
 template bool operator>(const basic_fitness_t<double> &, const basic_fitness_t<double> &);
 template bool operator<=(const basic_fitness_t<double> &, const basic_fitness_t<double> &);
 template bool operator>=(const basic_fitness_t<double> &, const basic_fitness_t<double> &);
+template bool dominating(const basic_fitness_t<double> &, const basic_fitness_t<double> &);
+template bool almost_equal(const basic_fitness_t<double> &, const basic_fitness_t<double> &, double);
+
+template bool isfinite(const basic_fitness_t<double> &);
+template bool isnan(const basic_fitness_t<double> &);
+template bool isnonnegative(const basic_fitness_t<double> &);
+template bool issmall(const basic_fitness_t<double> &);
+
+template basic_fitness_t<double> operator+(basic_fitness_t<double>, const basic_fitness_t<double> &);
+template basic_fitness_t<double> operator-(basic_fitness_t<double>, const basic_fitness_t<double> &);
+template basic_fitness_t<double> operator*(basic_fitness_t<double>, const basic_fitness_t<double> &);
+template basic_fitness_t<double> operator/(basic_fitness_t<double>, double);
+template basic_fitness_t<double> operator*(basic_fitness_t<double>, double);
+template basic_fitness_t<double> abs(basic_fitness_t<double>);
+template basic_fitness_t<double> sqrt(basic_fitness_t<double>);
+template basic_fitness_t<double> round_to(basic_fitness_t<double>);
+template basic_fitness_t<double> combine(const basic_fitness_t<double> &, const basic_fitness_t<double> &);
+template double distance(const basic_fitness_t<double> &, const basic_fitness_t<double> &);
+template std::ostream &operator<<(std::ostream &, basic_fitness_t<double>);
+
+// scalar helpers of utility.h
+template double round_to(double);
+template bool almost_equal(double, double, double);
+template bool issmall(double);
+template bool isnonnegative(double);
 }
